@@ -28,7 +28,7 @@ ASSUMPTIONS = ["git is disabled (C05 checks the selection rule); the cached vers
                "the command string is compared after whitespace splitting (token sequence), not byte for byte"]
 ESSENTIAL = ["no_deps", "group_dep_omitted", "shared_dep_two_dependents", "cached_and_fresh_mixed", "nested_pkg_depth>=2",
              "bool_and_float_args", "again", "real_bash_layer", "real_python_lib_probe", "options>=2_unsorted", "combine_dep",
-             "cond_variables_in_conductors_own_environment"]
+             "cond_variables_in_conductors_own_environment", "arguments_modified_after_the_call"]
 TECHNIQUE = "property-based testing (Hypothesis): virtual-kernel exec-boundary observation + real bash/python probes; contract model as oracle"
 LEVEL_TEXT = "Randomised search over graphs, args/options and run histories; every execution's argv/cwd/env is compared with the documented contract."
 LEVEL_NOTE = "Trusted: vf/kernel.py spawn records; vf/probes/probe.sh, probe.py."
@@ -73,6 +73,8 @@ def _case(draw, tier):
     case["history"] = hist
     # Conductor itself started from inside a task of another run (nested `cond run`): COND_* already set
     case["outer_env"] = draw(st.sampled_from([False, False, False, True]))
+    # the COND file modifies the list/dict objects it handed to the constructors after the calls
+    case["mutate_after"] = draw(st.sampled_from([False] * 5 + [True]))
     case["real"] = real
     case["flags"] = []
     case["outcomes"] = {}
@@ -140,6 +142,8 @@ def _run(case, root, side):
         cands = [ids[i] for i in sorted(clo) if case["tasks"][i]["kind"] in graph.PROC_KINDS]
         if cands:
             pyprobe = cands[len(cands) // 2]
+    if case.get("mutate_after"):
+        labels.add("arguments_modified_after_the_call")
     outer = {}
     if case.get("outer_env"):
         labels.add("cond_variables_in_conductors_own_environment")
